@@ -1108,6 +1108,9 @@ def units():
             ("covers-rhs-lhs-subscripts-guard-and-loop-bounds",
              [f for _, f in validity(s)] + unfold_ll(f_loops(s)),
              subset(RD_Assign(s), union(RD_Cond(s), RD_AssignBase(s))))])))
+    # the identity clause (sets unchanged by map_expressions(identity)) rests on the map_expressions contracts
+    from . import c16
+    us += c16.map_expressions_units()
     return us
 
 
@@ -1123,7 +1126,7 @@ ASSUMPTIONS = [
     "statement records are valid: lhs is a Variable or a Subscript of a Variable",
     "an item store `context[a][i] = v` mutates (only) the variable a; aliasing of array values between variables is not modelled",
     "user functions are arbitrary callees (may raise); they do not touch the context",
-    "the identity-map clause (sets unchanged by map_expressions(identity)) is decided under C16's map_expressions contracts, not here",
+    "the identity-map clause (sets unchanged by map_expressions(identity)) rests on the map_expressions contracts of Assign, YieldState and AssignFunctionCall (shared with C16, included in this check) and the identity lemma",
     "exec_AssignImplicit raises NotImplementedError in the interpreter: nothing to cover",
 ]
 EXPLANATION = ("Declared side: every get_read_variables / get_written_variables on the class chains of Assign, AssignFunctionCall and "
